@@ -5,7 +5,8 @@
    observation per call: closed ids, error, ids of Open() after the call; None = the call panicked. *)
 From Gots Require Import Base.Prelude Model.SegDesc Model.State Spec.Trackers
   Proofs.SegProofs Proofs.StateBasics Proofs.StateRun Proofs.StateDup Proofs.StateInv Proofs.StateWrites Proofs.StateSpec Proofs.StatePinnedWitness.
-From Gots Require Exec.StateExec Model.StatePinned.
+From Gots Require Exec.StateExec.
+From Gots Require Import Model.StatePinned.
 Import SegDesc State.
 Local Open Scope nat_scope.
 
